@@ -1091,7 +1091,7 @@ def run(ctx):
         ctx.case(key=json.dumps(case, sort_keys=True) if ok else None,
                  sample=dict(case=case) if i < 2 else None)
     # ---- histories: every construction form, then random forms and change sequences
-    nhist = ctx.n(70, 1200)
+    nhist = ctx.n(70, 500)
     for i in range(nhist):
         if len(ctx.failing) + len(ctx.known_hits) >= MAX_SIGNATURES or time.time() - t_start > 0.9 * budget:
             ctx.count('stopped-early:histories')
